@@ -890,7 +890,8 @@ class C15(Check):
             if f is None:
                 if r['demanded']:
                     acc.outcome(('eval', cfg['fmt'], cfg['mode'], r['rows']))
-                    if NACT[cfg['calls'][0]['acts']] >= 2: acc.mark_nontrivial({'via': 'eval', 'cfg': cfg, 'ch': ch})
+                    if NACT[cfg['calls'][0]['acts']] >= 2 and list(cfg.get('le') or ['on', 'on']) != ['off', None]:      # learn='off', eval=None: the learner never predicts
+                        acc.mark_nontrivial({'via': 'eval', 'cfg': cfg, 'ch': ch})
                 continue
             if run_checked(cfg, ch)['finding'] is not None:          # SafeLearner itself fails on these answers: reported by the direct cases
                 acc.count('evaluator_failures_explained_by_direct_failure'); continue
